@@ -393,6 +393,36 @@ func ruleCLN2(c *Ctx) {
 			c.Fail(fnName(fn)+" / fresh object", p.Pos(fn.Pos()), "no fresh allocation")
 			continue
 		}
+		// what Clone hands out is that fresh object on every path: a Clone that answers with its receiver for some kinds
+		// of node ("a literal is the same in every instance") makes the blueprint's node, memo flag and value included,
+		// part of every instance (round-5 seed C09/a; the callers trust a Clone result to be new)
+		notFresh := ""
+		for _, r := range returnsOf(fn) {
+			if len(r.Results) == 0 {
+				continue
+			}
+			res := unspill(r.Results[0])
+			if isNilConst(res) || res == ssa.Value(al) {
+				continue
+			}
+			// the second result of KnowledgeBase.Clone style (value, error) returns: a nil value with an error is fine
+			if len(r.Results) > 1 && returnsNonNilError(r) {
+				continue
+			}
+			if ph, isPhi := res.(*ssa.Phi); isPhi {
+				allFresh := true
+				for _, e := range ph.Edges {
+					if ue := unspill(e); ue != ssa.Value(al) && !isNilConst(ue) {
+						allFresh = false
+					}
+				}
+				if allFresh {
+					continue
+				}
+			}
+			notFresh = "the return at " + p.InstrPos(r) + " hands out " + res.String()
+		}
+		c.Check(notFresh == "", fnName(fn)+" / returns its fresh object on every path", p.Pos(fn.Pos()), "every non-error return is the allocation made in this call", notFresh+", not the object allocated in this call: a node of the blueprint becomes part of the instances, whose engine calls then write its memo flag and value concurrently")
 		// stores into node-typed fields, and into elements of slices/maps held by the clone
 		for _, b := range fn.Blocks {
 			for _, in := range b.Instrs {
